@@ -258,15 +258,20 @@ func honestPair(t *rapid.T, env *caseEnv, keyA, keyB ed25519.PrivKey, ephA, ephB
 
 // openWire decrypts a recorded direction with the reference receive state of the reader's side, frame i under
 // nonce i (the auth frame is frame 0). Returns the chunks after the auth frame.
-func openWire(t *rapid.T, what string, rs *refSession, wire []byte) [][]byte {
+// base is the counter of the first data frame (1 unless the link was fast-forwarded).
+func openWire(t *rapid.T, what string, rs *refSession, wire []byte, base uint64) [][]byte {
 	if len(wire)%refSealed != 0 {
 		t.Fatalf("%s: wire stream of %d bytes is not a whole number of %d-byte sealed frames", what, len(wire), refSealed)
 	}
 	var chunks [][]byte
 	for i := 0; i*refSealed < len(wire); i++ {
+		if i == 1 {
+			rs.recvCtr = base
+		}
+		nonce := rs.recvCtr
 		c, err := rs.open(wire[i*refSealed : (i+1)*refSealed])
 		if err != nil {
-			t.Fatalf("%s: wire frame %d does not open under the reference key with nonce %d: %v", what, i, i, err)
+			t.Fatalf("%s: wire frame %d does not open under the reference key with nonce %d: %v", what, i, nonce, err)
 		}
 		chunks = append(chunks, append([]byte(nil), c...))
 	}
@@ -317,11 +322,18 @@ func TestHonestStream(t *testing.T) {
 		ib := rapid.IntRange(0, 5).Draw(t, "idB") // may equal idA: a node may talk to a node with the same key
 		eph := drawEphDistinct(t, 2, "eph")
 		plans := [2]dirPlan{genDir(t, "ab", maxTotal), genDir(t, "ba", maxTotal)}
+		var bases [2]uint64
+		var baseKind [2]string
+		for d := 0; d < 2; d++ {
+			bases[d], baseKind[d] = drawBase(t, fmt.Sprintf("base%d", d), len(expectedChunks(plans[d].writes)))
+		}
 
 		env := newCaseEnv()
 		defer env.finish(t)
 		a, b, authAB, authBA := honestPair(t, env, lib.Key(ia), lib.Key(ib), eph[0], eph[1])
 		ends := [2]*honestEnd{a, b}
+		jump(a, b, bases[0])
+		jump(b, a, bases[1])
 		wire := [2][]byte{append([]byte(nil), authAB...), append([]byte(nil), authBA...)}
 		var out [2]dirOutcome
 
@@ -406,7 +418,7 @@ func TestHonestStream(t *testing.T) {
 			if err != nil {
 				t.Fatalf("reference session: %v", err)
 			}
-			chunks := openWire(t, name, rs, wire[d])
+			chunks := openWire(t, name, rs, wire[d], bases[d])
 			exp := expectedChunks(p.writes)
 			if len(chunks) != len(exp) {
 				t.Fatalf("%s: %d data frames on the wire, expected %d for writes %v", name, len(chunks), len(exp), p.writes)
@@ -419,12 +431,12 @@ func TestHonestStream(t *testing.T) {
 				off += len(c)
 			}
 			// nonce counters through the shim
-			frames := uint64(1)
+			frames := bases[d]
 			wi := 0
 			for _, w := range p.writes {
 				frames += uint64((w + refDataMax - 1) / refDataMax)
 				if out[d].counters[wi] != frames {
-					t.Fatalf("%s: send counter after write %d is %d, expected %d (writes=%v)", name, wi, out[d].counters[wi], frames, p.writes)
+					t.Fatalf("%s: send counter after write %d is %d, expected %d: counter started at %d, every sealed frame must use a fresh, strictly larger nonce (writes=%v)", name, wi, out[d].counters[wi], frames, bases[d], p.writes)
 				}
 				wi++
 			}
@@ -443,7 +455,7 @@ func TestHonestStream(t *testing.T) {
 					nontrivial = true
 				}
 			}
-			cls = append(cls, fmt.Sprintf("frames:%s", bucket(len(exp))), fmt.Sprintf("fill:%d", p.mode))
+			cls = append(cls, fmt.Sprintf("frames:%s", bucket(len(exp))), fmt.Sprintf("fill:%d", p.mode), "counter-start:"+baseKind[d], "counter-crosses:"+crossed(bases[d], len(exp)))
 			for _, w := range p.writes {
 				cls = append(cls, "write:"+sizeClass(w))
 			}
@@ -458,7 +470,7 @@ func TestHonestStream(t *testing.T) {
 		}
 		cls = append(cls, fmt.Sprintf("identical-plaintext-frames:%v", identical), fmt.Sprintf("identical-across-directions:%v", cross),
 			fmt.Sprintf("same-identity:%v", ia == ib), fmt.Sprintf("crosses-frame-boundary:%v", nontrivial))
-		lib.Case("TestHonestStream", lib.FP(plans[0].writes, plans[0].reads, plans[0].chunks, plans[0].mode, plans[1].writes, plans[1].reads, plans[1].chunks, plans[1].mode), nontrivial, cls...)
+		lib.Case("TestHonestStream", lib.FP(bases, plans[0].writes, plans[0].reads, plans[0].chunks, plans[0].mode, plans[1].writes, plans[1].reads, plans[1].chunks, plans[1].mode), nontrivial, cls...)
 		if nontrivial && lib.WantSample("TestHonestStream") {
 			lib.Sample("TestHonestStream", map[string]interface{}{"A->B writes": plans[0].writes, "A->B read buffers": plans[0].reads, "A->B segments": plans[0].chunks,
 				"B->A writes": plans[1].writes, "B->A read buffers": plans[1].reads, "frames A->B": len(expectedChunks(plans[0].writes)), "frames B->A": len(expectedChunks(plans[1].writes))})
